@@ -467,8 +467,10 @@ impl Dependencies for Expr {
                 lhs_deps.append(&mut index.net_dependencies());
                 lhs_deps
             }
-            E::DotLookup { lhs, .. } => {
-                let x = lhs.net_dependencies();
+            E::DotLookup { lhs, dot_chain, .. } => {
+                // the arguments of the calls in the chain (`lhs.method(x)`) are dependencies, too
+                let mut x = lhs.net_dependencies();
+                x.append(&mut dot_chain.net_dependencies());
                 x
             }
             E::ReferenceToSelf(..) => vec![],
